@@ -24,9 +24,9 @@ handing the kernel to the unchanged translator:
       f = f__it                    # carry the hypothesis that some flex owns the index
       <body>
 
-The rewrite is purely syntactic, is applied only to top-level `for .. in range(..)` loops, only
-to names that are (a) the loop target or (b) assigned in the loop exclusively by `name = <loop
-target>`, and fails closed (TranslateError) for anything else.  The translated kernels are tied
+The rewrite is purely syntactic and is applied only to top-level `for .. in range(..)` loops and
+only to names first bound inside the loop and read after it; the pre-declared value is the
+integer 0, so a loop-born variable of another type fails closed in the translator.  The translated kernels are tied
 to the REAL kernels on every run by kernel validation (bin/kvalid.py on traced launches,
 props/C40.py), which is what justifies the rewrite operationally.
 """
@@ -47,29 +47,55 @@ SMOOTH_KERNELS = ["_flex_nodes", "_flex_vertices", "_flex_edges"]
 PASSIVE_KERNELS = ["_flex_elasticity", "_flex_bending"]
 
 
-def _names_loaded(stmts):
-  out = set()
-  for s in stmts:
-    for n in ast.walk(s):
-      if isinstance(n, ast.Name) and isinstance(n.ctx, ast.Load):
-        out.add(n.id)
-  return out
-
-
 def _names_stored(stmts):
   out = set()
   for s in stmts:
     for n in ast.walk(s):
       if isinstance(n, ast.Name) and isinstance(n.ctx, (ast.Store,)):
         out.add(n.id)
-      if isinstance(n, ast.For) and isinstance(n.target, ast.Name):
-        out.add(n.target.id)
   return out
 
 
+def _loads(node, killed, out):
+  for n in ast.walk(node):
+    if isinstance(n, ast.Name) and isinstance(n.ctx, ast.Load) and n.id not in killed:
+      out.add(n.id)
+
+
+def _live_loads(stmts, killed, out):
+  """Names read in `stmts` at a point where they may still hold a value assigned BEFORE `stmts`
+  (conservative: a name is dead only after an unconditional plain assignment at the same
+  nesting level, or inside a loop of which it is the target).  Returns the killed set."""
+  killed = set(killed)
+  for s in stmts:
+    if isinstance(s, ast.Assign):
+      _loads(s.value, killed, out)
+      for t in s.targets:
+        if isinstance(t, ast.Name):
+          killed.add(t.id)
+        elif isinstance(t, ast.Tuple) and all(isinstance(e, ast.Name) for e in t.elts):
+          killed |= {e.id for e in t.elts}
+        else:
+          _loads(t, killed, out)  # element store reads the container
+    elif isinstance(s, ast.For):
+      _loads(s.iter, killed, out)
+      inner = killed | ({s.target.id} if isinstance(s.target, ast.Name) else set())
+      _live_loads(s.body, inner, out)
+    elif isinstance(s, ast.If):
+      _loads(s.test, killed, out)
+      ka = _live_loads(s.body, killed, out)
+      kb = _live_loads(s.orelse, killed, out)
+      killed = ka & kb
+    else:
+      _loads(s, killed, out)
+  return killed
+
+
 def normalise_search_loops(fdef, params, TranslateError):
-  """Return a new FunctionDef in which loop-born variables read after a top-level loop are
-  pre-declared.  `notes` (list of str) documents every rewrite."""
+  """Return (new FunctionDef, notes): variables first bound inside a top-level `for` loop and
+  read after it are pre-declared (`n = 0`) before the loop; when that variable is the loop
+  target the target is renamed and copied at the top of the body.  A non-integer loop-born
+  variable makes the unchanged translator fail closed ("loop-carried .. changes type")."""
   fdef = copy.deepcopy(fdef)
   notes = []
   defined = set(params)
@@ -77,27 +103,17 @@ def normalise_search_loops(fdef, params, TranslateError):
   out = []
   for idx, s in enumerate(body):
     if isinstance(s, ast.For) and isinstance(s.target, ast.Name):
-      after = _names_loaded(body[idx + 1 :])
-      born = (_names_stored(s.body) | {s.target.id}) - defined
-      leak = sorted(born & after)
+      if not (isinstance(s.iter, ast.Call) and isinstance(s.iter.func, ast.Name) and s.iter.func.id == "range"):
+        raise TranslateError(f"{fdef.name}:{s.lineno}: for over non-range")
+      after = set()
+      _live_loads(body[idx + 1 :], set(), after)
       tgt = s.target.id
-      for n in leak:
-        if n == tgt:
-          continue
-        # must be assigned only as `n = <target>`
-        for a in ast.walk(s):
-          if isinstance(a, (ast.Assign, ast.AugAssign, ast.AnnAssign)):
-            ts = a.targets if isinstance(a, ast.Assign) else [a.target]
-            for t in ts:
-              for nn in ast.walk(t):
-                if isinstance(nn, ast.Name) and nn.id == n:
-                  okform = isinstance(a, ast.Assign) and len(a.targets) == 1 and isinstance(a.targets[0], ast.Name) and isinstance(a.value, ast.Name) and a.value.id == tgt
-                  if not okform:
-                    raise TranslateError(f"{fdef.name}:{a.lineno}: loop-born variable {n} read after the loop is not a copy of the loop index")
+      born = (_names_stored(s.body) | {tgt}) - defined
+      leak = sorted(born & after)
       ln = s.lineno
       for n in leak:
         out.append(ast.Assign(targets=[ast.Name(id=n, ctx=ast.Store())], value=ast.Constant(value=0), lineno=ln))
-        notes.append(f"line {ln}: `{n}` pre-declared as 0 before the search loop (read after the loop)")
+        notes.append(f"line {ln}: `{n}` pre-declared as 0 before the loop (first bound inside it, read after it)")
       if tgt in leak:
         it = tgt + "__it"
         first = ast.Assign(targets=[ast.Name(id=tgt, ctx=ast.Store())], value=ast.Name(id=it, ctx=ast.Load()), lineno=ln)
